@@ -22,6 +22,7 @@ def safe_exists(vs, body, patterns=()):
 
 from . import theory as T
 from .values import *
+from .values import VHeapDict
 
 
 class SpecEval:
@@ -269,6 +270,16 @@ def length_of(eng, st, v):
         return z3.Length(v.z)
     if isinstance(v, VDyn):
         return z3.If(T.Val.is_VBy(v.z), T.blen(T.Val.byval(v.z)), eng.llen(st, T.Val.lval(v.z)))
+    if isinstance(v, VHeapDict):
+        # number of keys of a dict attribute: the size function of its key set (the same `dsize` the sorted-items
+        # view uses; its defining facts are added when the items are iterated)
+        has = z3.Select(st.heap[v.key + '#has'], v.owner)
+        n = z3.Function('dsize', has.sort(), T.I)(has)
+        k = z3.Int('k!ds')
+        fact = z3.And(n >= 0, z3.ForAll([k], z3.Implies(z3.Select(has, k), n >= 1), patterns=[z3.Select(has, k)]))
+        if not any(fact.eq(h) for h in eng.extra_hyps):
+            eng.extra_hyps.append(fact)
+        return n
     raise Untranslated('len of %s' % v.kind)
 
 
